@@ -156,6 +156,10 @@ BASE_LIB = {
                 {"decl": "void m3(const std::string &name)"},
             ]},
             {"decl": "void f2(double *x +intent(in)+rank(1), int n +implied(size(x)))"},
+            {"decl": "namespace deep", "declarations": [
+                {"decl": "void work(int a)"},
+                {"decl": "int count(const std::string &s)"},
+            ]},
         ]},
         {"decl": "void f3(std::string &s +intent(out))"},
     ],
@@ -166,7 +170,11 @@ FUNC_OPTIONS = [("F_string_len_trim", False), ("F_force_wrapper", True), ("C_for
                 ("F_create_bufferify_function", False),
                 ("C_name_template", "XX_{C_prefix}{C_name_scope}{underscore_name}{function_suffix}{template_suffix}"),
                 ("F_C_name_template", "yy_{F_C_prefix}{F_name_scope}{underscore_name}{function_suffix}{template_suffix}"),
-                ("return_scalar_pointer", "scalar")]
+                ("return_scalar_pointer", "scalar"),
+                # selection of wrappers: stated on a container or on each of its members
+                # (the library has the wrapper OFF for these runs: switching it ON for a namespace equals switching it ON for each
+                #  member, because a container of a selected member is itself selected)
+                ("wrap_python", True), ("wrap_lua", True)]
 # F_this / literalinclude are also consumed by the class itself (derived type code), so they are not function-level
 FUNC_FORMATS = [("C_result", "rvc"), ("F_result", "rvf"), ("C_this", "me"), ("c_temp", "tmp_"),
                 ("C_string_result_as_arg", "outstr"), ("F_string_result_as_arg", "outstr"), ("PY_result", "rvpy"),
@@ -230,20 +238,26 @@ def relations(ctx, quick):
     combos = [("options", k, v) for k, v in FUNC_OPTIONS] + [("format", k, v) for k, v in FUNC_FORMATS]
     conts = containers(BASE_LIB)
     todo = [(c, s) for c in conts for s in combos]
+    # a wrap_* switch on a CLASS also selects the class's own type (not only its members), and on the library the module itself:
+    # "container == each child" is claimed for the wrapper selection only where the container is a namespace
+    todo = [(c, s) for (c, s) in todo if not s[1].startswith("wrap_") or (c and str(node_at(BASE_LIB, c).get("decl", "")).startswith("namespace"))]
     if quick:
         # every key once (random container) + a few extra random placements
         byk = {}
         for t in todo:
             byk.setdefault(t[1][1], []).append(t)
-        todo = [rng.choice(v) for v in byk.values()] + rng.sample(todo, 6)
+        todo = [rng.choice(v) for v in byk.values()] + rng.sample(todo, 6) + [t for t in todo if t[1][1].startswith("wrap_")]
     from concurrent.futures import ThreadPoolExecutor
 
     def r1(job):
         (path, (sect, k, v)) = job
         tag = "r1_%s_%s" % ("_".join(map(str, path)) or "lib", k)
         A = copy.deepcopy(BASE_LIB)
-        put(node_at(A, path), sect, k, v)
         B = copy.deepcopy(BASE_LIB)
+        if k.startswith("wrap_"):
+            A["options"][k] = not v
+            B["options"][k] = not v
+        put(node_at(A, path), sect, k, v)
         for ch in node_at(B, path)["declarations"]:
             put(ch, sect, k, v)
         ra = run_lib(ctx, A, tag + "_A")
@@ -271,7 +285,7 @@ def relations(ctx, quick):
                  "declarations": [{"decl": "Box()"}, {"decl": "void put(T v)"}, {"decl": "T get() const"},
                                   {"decl": "const std::string &name() const"}, {"decl": "void fill(T *a +rank(1), int n +implied(size(a)))"}]},
                 {"decl": "void other(int a)"}]}
-    topts = [(k, v) for k, v in FUNC_OPTIONS] + [("debug", True)]
+    topts = [(k, v) for k, v in FUNC_OPTIONS if not k.startswith("wrap_")] + [("debug", True)]     # (wrapper selection: R1 on namespaces)
 
     def r1b(kv):
         k, v = kv
